@@ -206,9 +206,13 @@ def classify(route, kinds, tokens, detail):
             return "frame-level-check-datetimelike-statistic-not-converted"
         if "ts-subsecond" in ac and any(
                 t.startswith(f"{place}.dtype:datetime64[") and "," not in t
-                for t in T) and _kinds_ok(
+                for t in T) and (_kinds_ok(
                 K, (f"proj:{place}.checks.statistics",) + COMMON_TAIL,
-                (f"proj:{place}.checks.statistics",)):
+                (f"proj:{place}.checks.statistics",)) or (
+                # truncation made in_range's exclusive bounds coincide
+                K == ["read-exc:ValueError"] and name == "in_range" and
+                "defines an empty interval" in str(
+                    (detail or {}).get("read-exc:ValueError")))):
             return "DATETIME_FORMAT-drops-subseconds-of-statistic"
 
     # ---- str(dtype) does not carry the dtype's parameters ----------------
